@@ -27,7 +27,14 @@ pub struct Job {
     pub known: Vec<String>,
     /// use sleep-set partial-order reduction in the unbounded pass
     pub por: bool,
+    /// replays a schedule in a *fresh process* and returns its fingerprint. Used to confirm a
+    /// violation whose execution had to be abandoned (hang, deadlock, escaped panic): abandoning
+    /// leaks every suspended task together with the locks it holds, so this process must not run
+    /// another execution afterwards. (schedule, por) -> fingerprint
+    pub confirm: Option<Confirm>,
 }
+
+pub type Confirm = std::sync::Arc<dyn Fn(&[Choice], bool) -> Result<String, String> + Send + Sync>;
 
 /// Signature carried by a clause, if any
 pub fn clause_sig(clause: &str) -> Option<&str> {
@@ -49,6 +56,7 @@ impl Job {
             max_execs: None,
             known: vec![],
             por: true,
+            confirm: None,
         }
     }
 }
@@ -142,7 +150,7 @@ pub fn fmt_trace(r: &ExecResult, limit: usize) -> Vec<String> {
     v
 }
 
-fn fingerprint(r: &ExecResult) -> String {
+pub fn fingerprint(r: &ExecResult) -> String {
     use std::hash::{Hash, Hasher};
     let mut h = std::collections::hash_map::DefaultHasher::new();
     for c in &r.path {
@@ -298,13 +306,25 @@ impl Dfs<'_> {
             }
             if let Some((kind, clauses)) = v {
                 // a violation is only reported if the same schedule fails identically twice more
-                let a = run_one(&cfg, &job.body, &r.path);
-                let b = run_one(&cfg, &job.body, &r.path);
-                let (fa, fb, f0) = (fingerprint(&a), fingerprint(&b), fingerprint(&r));
-                if a.divergence.is_some() || b.divergence.is_some() || fa != f0 || fb != f0 {
+                let f0 = fingerprint(&r);
+                let abandoned = r.liveness.is_some() || r.panic.is_some();
+                let (fa, fb) = match (&job.confirm, abandoned) {
+                    (Some(confirm), true) => {
+                        let a = confirm(&r.path, cfg.por);
+                        let b = confirm(&r.path, cfg.por);
+                        (a.unwrap_or_else(|e| format!("error: {e}")), b.unwrap_or_else(|e| format!("error: {e}")))
+                    }
+                    _ => {
+                        let a = run_one(&cfg, &job.body, &r.path);
+                        let b = run_one(&cfg, &job.body, &r.path);
+                        let f = |x: &ExecResult| if x.divergence.is_some() { format!("divergence: {:?}", x.divergence) } else { fingerprint(x) };
+                        (f(&a), f(&b))
+                    }
+                };
+                if fa != f0 || fb != f0 {
                     return Err(Stop::Machinery(format!(
-                        "job {}: violation candidate does not replay identically (fingerprints {f0} {fa} {fb}; divergence {:?} {:?}); clauses {:?}",
-                        job.name, a.divergence, b.divergence, clauses
+                        "job {}: violation candidate does not replay identically (fingerprints {f0} / {fa} / {fb}); clauses {:?}",
+                        job.name, clauses
                     )));
                 }
                 return Err(Stop::Violation(Box::new(Violation {
